@@ -1320,6 +1320,10 @@ impl ArchiveBuilder {
             // Set last offset
             sector_offsets[sector_count] = (data_start + sector_data.len()) as u32;
 
+            // Readers only expect a sector offset table on files marked as compressed; sectors
+            // that did not shrink are stored raw and recognised by their full size
+            flags |= BlockEntry::FLAG_COMPRESS;
+
             // Log CRC generation if enabled
             if self.generate_crcs {
                 log::debug!(
